@@ -1115,3 +1115,177 @@ def check_null_reported_on_every_path(ctx, rep):
             else:
                 rep.ok("R-ERR", key, body.where(), "N4: every return without an error record follows a null test of the argument")
     return n
+
+
+def check_c_string_conversions(ctx, rep):
+    """text that crosses the boundary is converted strictly in both directions: an incoming C string goes through `CStr::to_str`
+    (whose Err arm must record an error - N2 / sentinel rules), never through the lossy conversion that turns invalid UTF-8 into a
+    live value with U+FFFD in it; an outgoing error message is stripped of NULs before `CString::new`, whose failure would
+    otherwise swallow the pending error"""
+    prog = ctx.prog
+    from rules import entries
+
+    n = 0
+    lossy = []
+    for b in prog.bodies.values():
+        if not b.file.startswith("src/c_api/") or "::test" in b.id:
+            continue
+        for bi, t in b.calls():
+            nm = strip_generics(mir.callee_name(t) or "")
+            if nm.split("::")[-1] in ("to_string_lossy", "from_utf8_lossy", "from_utf8_unchecked"):
+                lossy.append((b, bi, nm))
+    n += 1
+    if lossy:
+        b, bi, nm = lossy[0]
+        rep.bad("R-ERR", "R-ERR:c-strings:strict-utf8:%s" % b.rec.get("name", b.short), b.where(bi), "%s converts a C string with %s: invalid UTF-8 becomes a live value instead of the documented error" % (b.rec.get("name", b.short), nm.split("::")[-1]))
+    else:
+        rep.ok("R-ERR", "c-strings:strict-utf8", "-", "no lossy / unchecked UTF-8 conversion anywhere under src/c_api")
+    # last_error_message
+    lem = next((prog.bodies[f] for f in entries.extern_c(prog) if prog.bodies[f].rec["name"] == "last_error_message"), None)
+    if lem is not None:
+        n += 1
+        sites = [(bi, t) for bi, t in lem.calls() if strip_generics(mir.callee_name(t) or "").endswith("CString::new")]
+        good = bool(sites)
+        for bi, t in sites:
+            d = repr(G.describe(lem, t["args"][0]))
+            if not re.search(r"str>::replace\(.*const 0[,)]", d) and "::replace(" not in d:
+                good = False
+        if good:
+            rep.ok("R-ERR", "error-register:message-has-no-nul", lem.where(), "the message handed to CString::new went through replace('\\0', ..): the conversion cannot fail, so a pending error always has a retrievable text")
+        else:
+            rep.bad("R-ERR", "R-ERR:error-register:message-has-no-nul", lem.where(), "last_error_message hands the message to CString::new as it is: a message that quotes a NUL (from an escape in the rejected input) makes the conversion fail after the error was taken, and the failure has no retrievable message")
+    return n
+
+
+def check_out_param_stores(ctx, rep):
+    """a result written through an out-pointer is written whatever its contents: the store is not conditional on a property of the
+    value being stored (an empty grid is the answer to a query without matches; returning early leaves the previous answer in the
+    caller's handle)"""
+    prog = ctx.prog
+    from rules import entries
+
+    n = 0
+    for f in entries.extern_c(prog):
+        b = prog.bodies[f]
+        params = {p for p, ty in ptr_params(b) if ty.startswith("*mut")}
+        if not params:
+            continue
+        for bi in range(b.n):
+            for st in b.blocks[bi]["stmts"]:
+                if st["k"] != "assign" or not st["lhs"]["p"] or st["lhs"]["p"][0] != "*" and "*" not in [x for x in st["lhs"]["p"] if isinstance(x, str)]:
+                    continue
+                # a store through (the payload of as_mut of) a *mut parameter
+                root = repr(G.describe_place(b, {"l": st["lhs"]["l"], "p": []}))
+                for _i in range(3):
+                    mm = re.search(r"\b_(\d+)\b(?= as )", root)
+                    if not mm or int(mm.group(1)) <= b.arg_count:
+                        break
+                    root = root[:mm.start()] + repr(G.describe_place(b, {"l": int(mm.group(1)), "p": []})) + root[mm.end():]
+                if not any(re.search(r"\b_%d\b" % p, root) for p in params):
+                    continue
+                if st["rv"]["k"] not in ("use", "agg"):
+                    continue
+                ops = [st["rv"]["op"]] if st["rv"]["k"] == "use" else st["rv"]["ops"]
+                srcs = set()
+                for o in ops:
+                    pl = op_place(o)
+                    if pl is not None:
+                        srcs.add(pl["l"])
+                        sd = b.single_def(pl["l"])
+                        if sd and sd[1] != "term" and sd[2]["k"] == "agg":
+                            for o2 in sd[2]["ops"]:
+                                p2 = op_place(o2)
+                                if p2 is not None:
+                                    srcs.add(p2["l"])
+                if not srcs:
+                    continue
+                # ... and the locals those were moved / copied / built from
+                for _i in range(6):
+                    more = set()
+                    for l in srcs:
+                        sd = b.single_def(l)
+                        if sd and sd[1] != "term":
+                            if sd[2]["k"] in ("use", "cast"):
+                                p2 = op_place(sd[2]["op"])
+                                if p2 is not None:
+                                    more.add(p2["l"])
+                            elif sd[2]["k"] == "agg":
+                                for o2 in sd[2]["ops"]:
+                                    p2 = op_place(o2)
+                                    if p2 is not None:
+                                        more.add(p2["l"])
+                    if more <= srcs:
+                        break
+                    srcs |= more
+                srcs = {l for l in srcs if l > b.arg_count}
+                n += 1
+                name = b.rec["name"]
+                key = "%s:out-param-store-unconditional" % name
+                cond = []
+                for g in G.guards_at(b, bi):
+                    if g.a is None or g.a.kind != "call":
+                        continue
+                    t = None
+                    # the guard is a call one of whose arguments is (a reference to) the stored value
+                    for bj, tt in b.calls():
+                        if strip_generics(mir.callee_name(tt) or "") == strip_generics(g.a.v) and any((op_place(a) or {}).get("l") in srcs or _refers(b, a, srcs) for a in tt["args"]):
+                            t = tt
+                    if t is not None:
+                        cond.append(strip_generics(g.a.v).split("::")[-1])
+                if cond:
+                    rep.bad("R-KIND", "R-KIND:" + key, b.where(bi), "%s writes its result through the out-pointer only under %s of the value it would write: for the other values the caller's handle keeps an older answer" % (name, cond))
+                else:
+                    rep.ok("R-KIND", key, b.where(bi), "the store does not depend on the stored value")
+    return n
+
+
+def _refers(b, op, locals_):
+    pl = op_place(op)
+    if pl is None or pl["p"]:
+        return False
+    sd = b.single_def(pl["l"])
+    if sd and sd[1] != "term" and sd[2]["k"] in ("ref", "rawptr"):
+        return sd[2]["place"]["l"] in locals_
+    return False
+
+
+def check_internal_calls_of_owning_functions(ctx, rep):
+    """an exported function that returns an owned C string (CString::into_raw) hands its caller the duty to destroy it; when the
+    library calls such a function itself, the result must reach a caller in turn (be returned) or be destroyed - a call whose result
+    is dropped leaks the string on every invocation"""
+    prog = ctx.prog
+    from rules import entries
+
+    E = set(entries.extern_c(prog))
+    owning = set()
+    for f in E:
+        b = prog.bodies[f]
+        if b.rec.get("sig_output", "") in ("*const i8", "*mut i8", "*const u8", "*mut u8", "*const c_char", "*mut c_char") and any(strip_generics(mir.callee_name(t) or "").endswith("CString::into_raw") for fb in [b] + [prog.bodies[c] for c in prog.closures_of.get(b.id, [])] for _bi, t in fb.calls()):
+            owning.add(f)
+    n = 0
+    for b in prog.bodies.values():
+        if not b.file.startswith("src/c_api/") or "::test" in b.id:
+            continue
+        for bi, t in b.calls():
+            cal = mir.callee_name(t)
+            if cal not in owning or cal == b.id:
+                continue
+            n += 1
+            key = "%s:owned-string-from:%s" % (b.rec.get("name", b.short), prog.bodies[cal].rec["name"])
+            dl = t["dest"]["l"] if not t["dest"]["p"] else None
+            used = dl == 0
+            if dl is not None and not used:
+                for bj, tt in b.calls():
+                    if any((op_place(a) or {}).get("l") == dl for a in tt.get("args", [])):
+                        used = True
+                for bj in range(b.n):
+                    for st in b.blocks[bj]["stmts"]:
+                        if st["k"] == "assign" and st["rv"]["k"] == "use" and (op_place(st["rv"]["op"]) or {}).get("l") == dl:
+                            used = True
+            if used:
+                rep.ok("R-FFI-N3", key, b.where(bi), "the owned string is passed on")
+            else:
+                rep.bad("R-FFI-N3", "R-FFI-N3:" + key, b.where(bi), "%s calls %s and drops the owned C string it returns: one leaked allocation per call" % (b.rec.get("name", b.short), prog.bodies[cal].rec["name"]))
+    if n == 0:
+        rep.ok("R-FFI-N3", "owned-strings:no-internal-caller", "-", "no function under src/c_api calls an exported function that returns an owned C string (%d such functions)" % len(owning))
+    return n
